@@ -15,12 +15,19 @@ import SuxModel.EF.LemmasPred
 namespace Sux.EF
 
 /-- public form of the hypotheses: `xs` non-decreasing, every element `≤ u`, `u` a `usize`, and
-the length of the upper-bits vector representable (otherwise `EliasFanoBuilder::new` panics) -/
+`3 n` (for `n = 0`: 2) representable — the upper-bits vector has `n + (u >> l) + 1 ≤ n + 2·max n 1`
+bits whatever `u` is (`shr_lowWidth_lt`), so this is a bound on the number of elements only
+(about `6.1 · 10^18`, far beyond any allocation) -/
 structure Input (xs : List Nat) (u : Nat) : Prop where
   mono : xs.Pairwise (· ≤ ·)
   bound : ∀ x, x ∈ xs → x ≤ u
   u_lt : u < 2 ^ 64
-  fits : xs.length + (u >>> lowWidth xs.length u) + 1 < 2 ^ 64
+  len_lt : xs.length + 2 * max xs.length 1 < 2 ^ 64
+
+/-- the length `n + (u >> l) + 1` of the upper-bits vector is a `usize` -/
+theorem Input.fits {xs : List Nat} {u : Nat} (h : Input xs u) :
+    xs.length + (u >>> lowWidth xs.length u) + 1 < 2 ^ 64 :=
+  fits_of_len _ _ h.len_lt
 
 theorem getD_eq_getElem (xs : List Nat) {i : Nat} (hi : i < xs.length) : xs.getD i 0 = xs[i] := by
   rw [List.getD_eq_getElem?_getD, List.getElem?_eq_getElem hi]; rfl
